@@ -87,7 +87,7 @@ def _trn_rt_strategy(tier):
     })
 
 
-@subcheck("C11", "trn_roundtrip", _trn_rt_strategy, quick=800, thorough=30000,
+@subcheck("C11", "trn_roundtrip", _trn_rt_strategy, quick=800, thorough=12000,
           doc="corpora of utterances with alternates nested to depth 3 (top-level alternates wrapped (alts, s, e), tokens "
               "optionally timed): read_trn(write_trn(x)) == x with alternates as ([[..],[..]], -1, -1); read_trn_iter agrees; "
               "a warning is issued iff an alternate occurs and warn=True",
@@ -126,7 +126,7 @@ def _trn_variants_strategy(tier):
     })
 
 
-@subcheck("C11", "trn_reader_reference_text", _trn_variants_strategy, quick=500, thorough=15000,
+@subcheck("C11", "trn_reader_reference_text", _trn_variants_strategy, quick=500, thorough=8000,
           doc="trn text produced by an independent serialiser (varying blanks between elements, blank lines): read_trn "
               "returns the generated structure",
           required_classes=["nested"])
@@ -220,12 +220,12 @@ def _trn_mp_body(case, real):
     return Info(nontrivial=nontriv, classes=cl)
 
 
-subcheck("C11", "trn_workers_simulated", lambda tier: _trn_mp_strategy(tier), quick=300, thorough=8000,
+subcheck("C11", "trn_workers_simulated", lambda tier: _trn_mp_strategy(tier), quick=300, thorough=4000,
          doc="0..40 lines, processes in {1,2,4}, chunk sizes 1..5, simulated pool with generated completion order: "
              "same list as processes=0 (and as the generated corpus); path or open file",
          required_classes=["ge3_lines", "several_chunks"])(lambda case: _trn_mp_body(case, False))
 
-subcheck("C11", "trn_workers_real", lambda tier: _trn_mp_strategy(tier, real=True), quick=24, thorough=300,
+subcheck("C11", "trn_workers_real", lambda tier: _trn_mp_strategy(tier, real=True), quick=24, thorough=200,
          doc="real fork pools (torch.multiprocessing.Pool) with content-derived per-line delays of 0..4 ms injected into "
              "the worker function: same list as processes=0",
          required_classes=["ge3_lines"], timeout_s=1500)(lambda case: _trn_mp_body(case, True))
@@ -339,7 +339,7 @@ def _ctm_info(case):
     return Info(nontrivial=inter and len(spans) >= 2, classes=cl)
 
 
-@subcheck("C11", "ctm_roundtrip", lambda tier: _ctm_case(tier), quick=800, thorough=30000,
+@subcheck("C11", "ctm_roundtrip", lambda tier: _ctm_case(tier), quick=800, thorough=12000,
           doc="1..4 utterances with 0..5 timed tokens (dyadic times: exact; arbitrary floats: end at 1e-9), default / "
               "channel string / injective utt->(wave, channel) map: read_ctm(write_ctm(x), inverse map) == x up to the "
               "mandated (wave, channel, start) ordering",
@@ -515,7 +515,7 @@ def _tg_write_read(case, data, f):
     return is_point, fill
 
 
-@subcheck("C11", "textgrid_roundtrip", lambda tier: _tg_case(tier), quick=1500, thorough=40000,
+@subcheck("C11", "textgrid_roundtrip", lambda tier: _tg_case(tier), quick=1500, thorough=25000,
           doc="1..5 non-overlapping entries (gaps, zero-length, times to ~230 s, on/off the 10^-p grid), precision 0..6(9), "
               "explicit/inferred point or interval tier, tier by default/index/name, fill_token: read_textgrid("
               "write_textgrid(x)) == x with times rounded to p decimals (Decimal half-even), gaps filled, order kept; "
@@ -552,7 +552,7 @@ def _tg_roundtrip(case):
     return Info(nontrivial=nontriv, classes=cl)
 
 
-@subcheck("C11", "textgrid_bad_bounds", lambda tier: _tg_case(tier, bad_bounds=True), quick=100, thorough=2000,
+@subcheck("C11", "textgrid_bad_bounds", lambda tier: _tg_case(tier, bad_bounds=True), quick=100, thorough=1000,
           doc="start_time after the first interval / end_time before the last: write_textgrid raises ValueError as documented "
               "in its messages; an empty transcript raises ValueError")
 def _tg_bad_bounds(case):
@@ -618,7 +618,7 @@ def _praat_text(case):
     return s
 
 
-@subcheck("C11", "textgrid_praat_tiers", lambda tier: _praat_case(tier), quick=500, thorough=12000,
+@subcheck("C11", "textgrid_praat_tiers", lambda tier: _praat_case(tier), quick=500, thorough=8000,
           doc="Praat long-format files with 1..3 interval/point tiers written by an independent writer: read_textgrid by index, "
               "negative index and name (first occurrence) returns that tier's entries, tier bounds, and fills leading / inner / "
               "trailing gaps of interval tiers on request",
@@ -669,7 +669,7 @@ def _pvf_strategy(tier):
     )
 
 
-@subcheck("C11", "path_vs_file", _pvf_strategy, quick=800, thorough=20000,
+@subcheck("C11", "path_vs_file", _pvf_strategy, quick=800, thorough=12000,
           doc="every writer (trn, ctm with every mapping, TextGrid with every point_tier/precision/start/end/tier name) given a "
               "path and given an open file: byte-identical output; every reader given the path and the open file: equal results",
           required_classes=["fmt_trn", "fmt_ctm", "fmt_textgrid", "precision_not3", "explicit_point_tier", "explicit_interval_tier",
@@ -795,7 +795,7 @@ def _tok_strategy(tier):
     return st.one_of(_tok_case(tier), _tok_case(tier), _tok_case(tier), _tok_case_ids(tier))
 
 
-@subcheck("C11", "token_roundtrip", _tok_strategy, quick=1200, thorough=30000,
+@subcheck("C11", "token_roundtrip", _tok_strategy, quick=1200, thorough=20000,
           doc="injective vocabularies, OOV tokens with unk given as token or as id, frame shifts {None,10,1,0.0625} ms, times on the "
               "frame grid / a quarter frame off it / arbitrary floats, skip_frame_times: tensor shape, ids and (unambiguous) frame "
               "indices as documented; token_to_transcript returns the same tokens (unk for OOV) and times within one frame shift",
